@@ -127,7 +127,44 @@ fn csr_of(rows: &[Vec<(usize, i64)>]) -> (Vec<usize>, Vec<usize>, Vec<i64>) {
 
 // ----------------------------------------------------------------- generators
 
+/// Largest part ids at and around machine-word boundaries (bit masks, small
+/// tables, u8/u16 counters in an "optimised" metric would break exactly there).
+const WORD_IDS: [usize; 15] = [7, 8, 15, 16, 31, 32, 33, 63, 64, 65, 127, 128, 129, 255, 256];
+
+/// Number of parts: mostly small, regularly largest id = a word boundary, sometimes anything up to 300.
+fn gen_k(r: &mut Rng) -> usize {
+    match r.below(10) {
+        0..=5 => r.range(1, 6) as usize,
+        6..=8 => *r.pick(&WORD_IDS) + 1,
+        _ => r.range(7, 300) as usize,
+    }
+}
+
+/// With many parts, make sure the extreme ids are in use and meet: consecutive
+/// elements (neighbours on paths, rings, lattices) get k-1, 0, k-2.
 fn gen_partition(r: &mut Rng, n: usize, k: usize) -> (String, Vec<usize>) {
+    if k > 6 && n > 0 && r.chance(1, 6) {
+        // only the top ids and 0
+        let lo = k - 3;
+        let p = (0..n)
+            .map(|_| if r.chance(1, 4) { 0 } else { lo + r.below(3) as usize })
+            .collect();
+        return ("top_ids".to_string(), p);
+    }
+    let (name, mut p) = gen_partition_base(r, n, k);
+    if k > 6 && n > 0 && r.chance(3, 4) {
+        let v = r.below(n as u64) as usize;
+        p[v] = k - 1;
+        p[(v + 1) % n] = 0;
+        if n > 2 {
+            p[(v + 2) % n] = k - 2;
+        }
+        return (format!("{}+extremes_meet", name), p);
+    }
+    (name, p)
+}
+
+fn gen_partition_base(r: &mut Rng, n: usize, k: usize) -> (String, Vec<usize>) {
     match r.below(6) {
         0 => ("uniform", (0..n).map(|_| r.below(k as u64) as usize).collect()),
         1 => ("one_part", vec![r.below(k as u64) as usize; n]),
@@ -770,7 +807,7 @@ fn json_rle(xs: &[i64]) -> String {
 
 /// One large case; returns (coq term, json, key, family).
 fn big_case(r: &mut Rng, threads: usize, panics: &mut usize, hangs: &mut usize) -> (String, String, String, String) {
-    let k = r.range(2, 6) as usize;
+    let k = if r.chance(2, 3) { r.range(2, 6) as usize } else { *r.pick(&WORD_IDS) + 1 };
     match r.below(8) {
         0..=3 => {
             let n = big_n(r);
@@ -996,6 +1033,25 @@ fn main() {
                 2
             };
             let (mut fam, mut rows) = gen_csr(&mut r, big);
+            // one part per vertex on a path / ring whose last id sits at a word boundary
+            let one_per_vertex = r.chance(1, 10);
+            if one_per_vertex {
+                let n = *r.pick(&[8usize, 9, 16, 17, 32, 33, 34, 64, 65, 66, 128, 129, 130, 200]);
+                let ring = r.chance(1, 2);
+                let mut m: Vec<std::collections::BTreeMap<usize, i64>> = vec![Default::default(); n];
+                for v in 1..n {
+                    let w = r.range(1, 9);
+                    m[v].insert(v - 1, w);
+                    m[v - 1].insert(v, w);
+                }
+                if ring {
+                    let w = r.range(1, 9);
+                    m[0].insert(n - 1, w);
+                    m[n - 1].insert(0, w);
+                }
+                rows = m.into_iter().map(|x| x.into_iter().collect()).collect();
+                fam = (if ring { "ring_one_part_per_vertex" } else { "path_one_part_per_vertex" }).to_string();
+            }
             if mode == 1 {
                 // adjacency list for the generic trait only: shuffled rows, duplicated entries
                 fam = format!("adjlist_{}", fam);
@@ -1015,8 +1071,12 @@ fn main() {
                 }
             }
             let n = rows.len();
-            let k = r.range(1, 6) as usize;
-            let (pfam, mut p) = gen_partition(&mut r, n, k);
+            let k = gen_k(&mut r);
+            let (pfam, mut p) = if one_per_vertex {
+                ("one_part_per_vertex".to_string(), (0..n).collect())
+            } else {
+                gen_partition(&mut r, n, k)
+            };
             let mut vw = gen_vweights(&mut r, n);
             // outside the contract (separate, rare stream): short partition / weight arrays, long ones
             let mut contract = "in";
@@ -1117,8 +1177,10 @@ fn main() {
             };
             let n: usize = dims.iter().product();
             let lat = lattice_rows(&dims);
-            let k = r.range(1, 6) as usize;
-            let (pfam, p) = if r.chance(1, 4) {
+            let k = gen_k(&mut r);
+            let (pfam, p) = if r.chance(1, 12) {
+                ("one_part_per_cell".to_string(), (0..n).collect())
+            } else if r.chance(1, 4) {
                 // stripes / checkerboard along the axes
                 let ax = r.below(dims.len() as u64) as usize;
                 let checker = r.chance(1, 2);
@@ -1215,7 +1277,7 @@ fn main() {
             w.push(coq, json, &key, nontrivial, &format!("grid{}d", dims.len()));
         } else {
             // ---------------------------------------------- load / imbalance case
-            let k = r.range(1, 6) as usize;
+            let k = gen_k(&mut r);
             let wfam = r.below(8);
             let n = match wfam {
                 6 => r.below(k as u64 + 1) as usize, // more parts than elements (possibly none)
